@@ -79,6 +79,26 @@ pub fn run(ctx: &mut Ctx) {
                         st.name_bindings.insert(b.to_string(), SItem::Int(1).to_item());
                     }
                     st.configuration.new_erc_name_probability = pnew;
+                    // the documented leaf ranges do not depend on the random-number bounds
+                    match case % 5 {
+                        1 => {
+                            st.configuration.max_random_float = 50.0;
+                            st.configuration.min_random_float = -50.0;
+                            st.configuration.max_random_integer = 3;
+                            st.configuration.min_random_integer = 2;
+                        }
+                        2 => {
+                            st.configuration.max_random_float = 0.25;
+                            st.configuration.max_random_integer = 1_000_000;
+                        }
+                        3 => {
+                            st.configuration.max_random_float = -1.0;
+                            st.configuration.min_random_float = -2.0;
+                            st.configuration.max_random_integer = -5;
+                            st.configuration.min_random_integer = -3;
+                        }
+                        _ => {}
+                    }
                     let gcache = InstructionCache::new(list.clone());
                     let bound: Vec<String> = binds.iter().map(|s| s.to_string()).collect();
                     ctx.rec.case_marker(case, &format!("random_code_with_size({})", n));
